@@ -147,7 +147,16 @@ static int line_to_instr(struct instr *instr_data, char *filtered_asm_str) {
   }
   // special case for push instruction with immediate
   // (used push imm16 or imm32 when immediate is greater than 0x7f)
-  if (NAME(instr_data->key, push) && instr_data->cons > MAX_SIGNED_8BIT)
+  if (NAME(instr_data->key, push) && instr_data->imm &&
+      IN_RANGE(instr_data->cons, NEG32BIT + 1, NEG64BIT)) {
+    // negative immediate: -128..-1 fits the imm8 form, anything else is the
+    // imm32 form with exactly its low four bytes
+    if (instr_data->cons < NEG80BIT) {
+      instr_data->key++;
+      DO_NOT_PAD(instr_data->cons, instr_data->reduced_imm, MAX_UNSIGNED_32BIT);
+    }
+  } else if (NAME(instr_data->key, push) &&
+             instr_data->cons > MAX_SIGNED_8BIT)
     instr_data->key++;
   return EXIT_SUCCESS;
 }
